@@ -369,7 +369,6 @@ Proof.
       destruct (firstn (N.to_nat n) ps) as [|p grp'] eqn:Egrp; [discriminate|].
       apply andb_true_iff in Gt. destruct Gt as [Gt Grepr].
       apply andb_true_iff in Gt. destruct Gt as [Gt _].
-      apply andb_true_iff in Gt. destruct Gt as [Gt _].
       apply andb_true_iff in Gt. destruct Gt as [Gt Gun].
       apply andb_true_iff in Gt. destruct Gt as [Gplain Glen]. apply Nat.eqb_eq in Glen.
       pose proof (uniform_repeat _ p grp' eq_refl Gun) as Hrep. rewrite Glen in Hrep.
